@@ -118,6 +118,31 @@ impl<K: PartialEq, V> HashMap<K, V> {
     pub fn drain(&mut self) -> std::vec::Drain<'_, (K, V)> {
         self.items.drain(..)
     }
+    pub fn clear(&mut self) {
+        self.items.clear()
+    }
+    pub fn retain<F: FnMut(&K, &mut V) -> bool>(&mut self, mut f: F) {
+        self.items.retain_mut(|kv| f(&kv.0, &mut kv.1))
+    }
+}
+
+impl<K, V> IntoIterator for HashMap<K, V> {
+    type Item = (K, V);
+    type IntoIter = std::vec::IntoIter<(K, V)>;
+    fn into_iter(self) -> Self::IntoIter {
+        self.items.into_iter()
+    }
+}
+
+impl<'a, K, V> IntoIterator for &'a HashMap<K, V> {
+    type Item = (&'a K, &'a V);
+    type IntoIter = std::iter::Map<std::slice::Iter<'a, (K, V)>, fn(&'a (K, V)) -> (&'a K, &'a V)>;
+    fn into_iter(self) -> Self::IntoIter {
+        fn f<K, V>(kv: &(K, V)) -> (&K, &V) {
+            (&kv.0, &kv.1)
+        }
+        self.items.iter().map(f::<K, V> as fn(&'a (K, V)) -> (&'a K, &'a V))
+    }
 }
 
 impl<K: PartialEq, V, const N: usize> From<[(K, V); N]> for HashMap<K, V> {
@@ -185,6 +210,60 @@ impl<K: PartialEq> HashSet<K> {
     }
     pub fn len(&self) -> usize {
         self.items.len()
+    }
+    pub fn is_empty(&self) -> bool {
+        self.items.is_empty()
+    }
+    pub fn clear(&mut self) {
+        self.items.clear()
+    }
+    pub fn remove<Q: ?Sized + PartialEq>(&mut self, k: &Q) -> bool
+    where
+        K: Borrow<Q>,
+    {
+        let mut i = 0;
+        while i < self.items.len() {
+            if self.items[i].borrow() == k {
+                self.items.remove(i);
+                return true;
+            }
+            i += 1;
+        }
+        false
+    }
+    pub fn iter(&self) -> std::slice::Iter<'_, K> {
+        self.items.iter()
+    }
+    pub fn extend<I: IntoIterator<Item = K>>(&mut self, it: I) {
+        for k in it {
+            self.insert(k);
+        }
+    }
+    /// elements of self that are not in other (a Vec-backed iterator: no borrow of a closure type)
+    pub fn difference<'a>(&'a self, other: &'a HashSet<K>) -> std::vec::IntoIter<&'a K> {
+        let mut v = Vec::new();
+        for k in self.items.iter() {
+            if !other.contains(k) {
+                v.push(k);
+            }
+        }
+        v.into_iter()
+    }
+}
+
+impl<K> IntoIterator for HashSet<K> {
+    type Item = K;
+    type IntoIter = std::vec::IntoIter<K>;
+    fn into_iter(self) -> Self::IntoIter {
+        self.items.into_iter()
+    }
+}
+
+impl<'a, K> IntoIterator for &'a HashSet<K> {
+    type Item = &'a K;
+    type IntoIter = std::slice::Iter<'a, K>;
+    fn into_iter(self) -> Self::IntoIter {
+        self.items.iter()
     }
 }
 
